@@ -233,14 +233,13 @@ PROPS["C05"] = dict(
     assumed_contracts=["MoveGenerator::compute_legal_moves is empty exactly when there is no legal move (C01)",
                        "PseudoLegalMove::try_as_legal_move returns Some only for a legal move (C01/K4)",
                        "Board::colored_attacks is the attacked-square set (C10)",
-                       "each weighted evaluation term difference lies within +-1000 (abstract terms)"],
+                       "each evaluation term lies within +-10^6 (abstract terms; only excludes i32 overflow of the sum)"],
     technique="Kani/CBMC: contract of Evaluation::mate_in_ply over all usize; Evaluator::evaluate checked against the "
               "contracts of its callees (move-generator oracle) with abstract evaluation terms",
     level_text="Proof: mate_in_ply is decided for every usize ply (no overflow, >= threshold, monotone); the evaluator's "
                "checkmate / stalemate / otherwise decision is executed symbolically with the move generator, the legality "
                "filter and the attack set replaced by their contracts, for symbolic king placement, side, perspective, depth.",
-    level_note="Assumes the callee contracts (C01, C10) and that each weighted term difference stays within +-1000; the range "
-               "of the REAL terms for extreme material (>= 100 pawn units) is not claimed. Trusted: Kani/CBMC, stubs.",
+    level_note="Assumes the callee contracts (C01, C10) (abstract terms of any magnitude up to 10^6). Trusted: Kani/CBMC, stubs.",
 )
 
 UNOPT = ["data::compute_rook_attacks_unoptimized", "data::compute_bishop_attacks_unoptimized"]
@@ -292,11 +291,15 @@ PROPS["C09"] = dict(
 
 PROPS["C01"] = dict(
     obligations=[
-        K("c01", "c01_k1_pawn_moves_1", kind="bounded", bound="one own pawn; every other piece arbitrary", desc="K1 compute_pawn_moves: every generated move "
-          "satisfies the mailbox rules for pawn pushes, double steps, captures, en passant and the four promotions with exact "
-          "attributes; every move value the rules allow is generated; no duplicates", functions=["MoveGenerator::compute_pawn_moves"], timeout=2400),
-        K("c01", "c01_k1_pawn_moves_2", kind="bounded", bound="two own pawns", desc="same with two pawns", functions=["MoveGenerator::compute_pawn_moves"],
-          timeout=5400, tier="thorough", heavy=True, mem_gb=24),
+        K("c01", "c01_k1_pawn_moves_sound_1", kind="bounded", bound="one own pawn; every other piece arbitrary", desc="K1 compute_pawn_moves, soundness: every "
+          "generated move satisfies the mailbox rules for pawn pushes, double steps, captures, en passant and the four promotions with exact "
+          "attributes; no duplicates", functions=["MoveGenerator::compute_pawn_moves"], timeout=3000, heavy=True),
+        K("c01", "c01_k1_pawn_moves_complete_1", kind="bounded", bound="one own pawn; every other piece arbitrary", desc="K1 compute_pawn_moves, completeness: "
+          "every move value the rules allow is generated", functions=["MoveGenerator::compute_pawn_moves"], timeout=3000, heavy=True),
+        K("c01", "c01_k1_pawn_moves_sound_2", kind="bounded", bound="two own pawns", desc="soundness with two pawns", functions=["MoveGenerator::compute_pawn_moves"],
+          timeout=7200, tier="thorough", heavy=True, mem_gb=24),
+        K("c01", "c01_k1_pawn_moves_complete_2", kind="bounded", bound="two own pawns", desc="completeness with two pawns", functions=["MoveGenerator::compute_pawn_moves"],
+          timeout=7200, tier="thorough", heavy=True, mem_gb=24),
         K("c01", "c01_k2_expand_moves_contract", kind="bounded", bound="<= 3 destination squares; position fully symbolic",
           desc="K2 expand_moves: appends exactly one move per destination in ascending order, capture kind = kind standing there, "
           "nothing else changes", functions=["GameStateHelper::expand_moves", "Board::piece_at"], timeout=2400),
@@ -317,7 +320,7 @@ PROPS["C01"] = dict(
           "next == by_performing_move(state, mv); fully symbolic position and move", functions=["PseudoLegalMove::try_as_legal_move"], timeout=2400),
         K("c01", "c01_k5_legal_moves_is_filter", kind="bounded", bound="pseudo-legal lists of length <= 3", desc="K5 compute_legal_moves_into == order-preserving "
           "filter of the pseudo-legal list by the legality oracle; stale buffer content does not leak",
-          functions=["MoveGenerator::compute_legal_moves_into", "MoveGenerationBuffer::clear"], timeout=2400),
+          functions=["MoveGenerator::compute_legal_moves_into", "MoveGenerationBuffer::clear"], timeout=3600, tier="thorough", heavy=True, mem_gb=30),
     ],
     assumptions=["K6 (spec level, argued in DESIGN.md): the king-step pre-filter `& !opposing_attacks` (attack map computed with the king on "
                  "the board) never removes a legal king move, and en-passant discovered checks are caught by K4 because the victim "
@@ -439,6 +442,8 @@ PROPS["C11"] = dict(
 
 PROPS["C10"] = dict(
     obligations=[
+        K("c10", "c10_is_check_contract", desc="Board::is_check(c) <=> king(c) on a square of colored_attacks(!c); State::is_check is that for "
+          "the side to move; fully symbolic position, arbitrary attacked sets, loop-free", functions=["Board::is_check", "State::is_check"]),
         K("c10", "c10_from_occupancy_contract_2", kind="bounded", bound="<= 2 own pieces per kind", desc="AttackMap::from_occupancy == (union over own pieces of A(piece,square,occ)) & !own, "
           "pawn map likewise over pawns, for an abstract attack function A and a fully symbolic position",
           functions=["AttackMap::from_occupancy", "BitBoard::pop"], timeout=1800),
